@@ -21,21 +21,62 @@ def dataclass_fields(ci: ClassInfo) -> list[str]:
     return [st.target.id for st in ci.node.body if isinstance(st, ast.AnnAssign) and isinstance(st.target, ast.Name)]
 
 
-def _tracked_flags(ctx: Ctx, fi: FuncInfo, option_fields: list[str]) -> tuple[dict[str, str], ast.Dict]:
-    """The dest -> Options-field table of the parser function (a local dict literal of string constants)."""
-    best = None
-    for n in walk_no_nested(fi.node):
-        if isinstance(n, ast.Dict) and len(n.keys) >= 4 and all(
-            isinstance(k, ast.Constant) and isinstance(k.value, str) for k in n.keys
-        ) and all(isinstance(v, ast.Constant) and isinstance(v.value, str) for v in n.values):
-            vals = [v.value for v in n.values]  # type: ignore[attr-defined]
-            if sum(1 for v in vals if v in option_fields) >= 4:
-                if best is not None:
-                    raise AnalysisError("two candidate explicit-flag tables in the parser function")
-                best = n
-    if best is None:
-        raise AnalysisError("anchor vanished: explicit-flag table (dest -> Options field dict literal) not found")
-    return {k.value: v.value for k, v in zip(best.keys, best.values)}, best  # type: ignore[attr-defined]
+def _tracked_flags(ctx: Ctx, fi: FuncInfo, option_fields: list[str]) -> tuple[dict[str, str], ast.AST]:
+    """dest -> name recorded in the explicit-flags set, from the loop that fills that set.
+
+    Shapes understood: `for dest, field in TABLE.items(): ... S.add(field)` (dict literal) and
+    `for dest in TABLE: ... S.add(dest)` (tuple / list / set literal of dest names)."""
+    prog = ctx.prog
+    flow = prog.flow(fi)
+    # the set that is returned as element 1 of the result tuple
+    set_names: set[str] = set()
+    for r in flow.cfg.returns():
+        v = r.ast.value
+        if isinstance(v, ast.Tuple) and len(v.elts) >= 2 and isinstance(v.elts[1], ast.Name):
+            set_names.add(v.elts[1].id)
+    if not set_names:
+        raise AnalysisError("anchor vanished: the parser function no longer returns (options, explicit_flags, is_auto)")
+    out: dict[str, str] = {}
+    table_node: ast.AST | None = None
+    adds = [(n, c) for n, c in flow.all_calls() if isinstance(c.func, ast.Attribute) and c.func.attr == "add"
+            and isinstance(c.func.value, ast.Name) and c.func.value.id in set_names and c.args]
+    if not adds:
+        raise AnalysisError("anchor vanished: nothing is ever added to the explicit-flags set")
+    for n, c in adds:
+        arg = c.args[0]
+        if isinstance(arg, ast.Constant) and isinstance(arg.value, str):
+            out[arg.value] = arg.value
+            continue
+        if not isinstance(arg, ast.Name):
+            raise AnalysisError(f"explicit-flags entry `{norm(arg)}` is not a loop variable or a constant")
+        loops = [h for h in flow.cfg.nodes if h.kind == "for" and n in flow.loop_body_nodes(h)]
+        if not loops:
+            raise AnalysisError("explicit-flags entries are not added inside a loop over a table")
+        h = max(loops, key=lambda x: x.id)
+        it = h.ast.iter
+        tgt = h.ast.target
+        table_expr = it.func.value if isinstance(it, ast.Call) and isinstance(it.func, ast.Attribute) and it.func.attr == "items" else it
+        lit = table_expr
+        if isinstance(table_expr, ast.Name):
+            defs = flow.reaching(h, table_expr.id)
+            if len(defs) != 1 or defs[0].value is None:
+                raise AnalysisError("explicit-flag table is not a single local literal")
+            lit = defs[0].value
+        table_node = lit
+        if isinstance(lit, ast.Dict) and isinstance(tgt, ast.Tuple) and len(tgt.elts) == 2:
+            kname, vname = (e.id if isinstance(e, ast.Name) else None for e in tgt.elts)
+            for k, v in zip(lit.keys, lit.values):
+                if isinstance(k, ast.Constant) and isinstance(v, ast.Constant):
+                    out[k.value] = v.value if arg.id == vname else (k.value if arg.id == kname else "?")
+        elif isinstance(lit, (ast.Tuple, ast.List, ast.Set)) and isinstance(tgt, ast.Name):
+            for e in lit.elts:
+                if isinstance(e, ast.Constant) and isinstance(e.value, str):
+                    out[e.value] = e.value if arg.id == tgt.id else "?"
+        else:
+            raise AnalysisError(f"explicit-flag table shape not understood: {norm(lit)[:60]}")
+    if table_node is None:
+        table_node = adds[0][1]
+    return out, table_node
 
 
 def check_config(ctx: Ctx) -> None:
